@@ -12,6 +12,26 @@ BASELINE = ("cd /repo && env -u LIQUID2_VERIF /venv/bin/python -m pytest -ra -q 
             "--timeout=900 --continue-on-collection-errors --junitxml=/tmp/liquid2_baseline.junit.xml")
 
 CHECKS = {
+    "C01": dict(
+        engine="LiquidSem",
+        technique="TLA+ reference semantics (LiquidSem/LiquidFilters/LiquidSrc) evaluated by TLC over programs generated "
+                  "in-model (LiquidGen); every exported behaviour replayed into the library",
+        text="TLC enumerates every program of each focus pool (flow, loops, loop pairs, nests, whitespace markers, blank blocks) "
+             "up to the focus bound, renders it with the reference semantics under every data set and configuration of the focus "
+             "and exports template text, data and expected result; the library must render exactly that text or raise that error class",
+        note="bounded-exhaustive per focus (pools and MaxTop in spec/MC_*.tla); constructs of spec/UNSPECIFIED.md are outside the "
+             "generated space; trusted: the reference semantics' reading of the docs, TLC, Json/IOUtils, CPython",
+        ref="DESIGN.md section 6 C01",
+    ),
+    "C18": dict(
+        engine="LiquidSem",
+        technique="TLC invariant WsOnly on the reference semantics over all marker assignments + S->C replay of every exported behaviour",
+        text="TLC checks on LiquidSem that markers / default trim / blank-block suppression change only whitespace for every program of "
+             "the trim focuses (text-markup-text(-markup-text) over every markup kind, marker pair, whitespace class, 3 default trims, "
+             "suppression on/off); each behaviour is rendered by the library and must equal the model's text character for character",
+        note="whitespace alphabet from spec/concrete.json (ASCII controls, NEL, NBSP, EM SPACE, IDEOGRAPHIC SPACE); bounded by MaxTop",
+        ref="DESIGN.md section 6 C18",
+    ),
     "C14": dict(
         engine="LiquidCache",
         technique="TLA+ model of the caching loaders (LiquidCache.tla) checked by TLC; every bounded history "
